@@ -4,13 +4,23 @@ use crate::log_utils;
 use std::borrow::Cow;
 
 /// Authentication request source
-#[derive(Debug, Clone, PartialEq)]
+#[derive(Clone, PartialEq)]
 pub enum Source<'this> {
     /// A client tries to authenticate using SNI
     Sni(Cow<'this, str>),
     /// A client tries to authenticate using
     /// [the basic authentication scheme](https://datatracker.ietf.org/doc/html/rfc7617)
     ProxyBasic(Cow<'this, str>),
+}
+
+/// The credentials themselves never reach a log
+impl std::fmt::Debug for Source<'_> {
+    fn fmt(&self, f: &mut std::fmt::Formatter<'_>) -> std::fmt::Result {
+        match self {
+            Source::Sni(_) => write!(f, "Sni(<scrubbed>)"),
+            Source::ProxyBasic(_) => write!(f, "ProxyBasic(<scrubbed>)"),
+        }
+    }
 }
 
 /// Authentication procedure status
